@@ -310,6 +310,9 @@ func report(run *propRun, w *World, db *ContractDB) int {
 			continue
 		}
 		l := l
+		for _, a := range l.Assumes {
+			assumed[a] = true
+		}
 		handle(l.Ob, func() string { return l.Script })
 	}
 	// known findings that no longer fail are reported (informational)
@@ -342,7 +345,7 @@ func report(run *propRun, w *World, db *ContractDB) int {
 		"coverage": map[string]interface{}{
 			"obligations": nOb - nKnown, "discharged": nDis,
 			"obligations_matching_open_known_findings": nKnown,
-			"checker_cmd":              "z3-new -in -t:<ms> (z3 5.1.0) | z3 -in (4.8.12) | cvc5 --incremental (1.0.3); first definite answer, retries standalone on the others",
+			"checker_cmd":              "z3-new -in -t:<ms> (z3 5.1.0) | z3 -in (4.8.12) | cvc5 --incremental (1.0.3); first definite answer, retries standalone on the others; lemmas/lean/*.lean by lean 4 (kernel); side conditions by an SSA scan",
 			"trusted_base":             trustedBase(db, fns),
 			"functions_under_contract": fns,
 			"lemmas":                   lemmaNames,
